@@ -17,6 +17,10 @@ import (
 	"verifharness/internal/load"
 )
 
+// Workspace writes the multi-package workspace (regexps, sort.Slice, generics, size-based constructs) under base;
+// exported for C02's process-repetition stream.
+func Workspace(base string, nPkgs, nFiles int) { workspace(base, nPkgs, nFiles) }
+
 func workspace(base string, nPkgs, nFiles int) {
 	common.WriteFile(filepath.Join(base, "go.mod"), "module ws4\n\ngo 1.20\n")
 	for p := 0; p < nPkgs; p++ {
